@@ -18,7 +18,7 @@ from mcx.core import Check
 KINDS = {'W1': ('W', ['OW']), 'W3': ('W', ['OW', 'HW1', 'HW2']),
          'ION': ('ION', ['NA']), 'AB': ('AB', ['A1', 'B1'])}
 KORDER = ('W1', 'W3', 'ION', 'AB')
-NUMBERINGS = ('seq', 'same', 'wrap', 'digit')
+NUMBERINGS = ('seq', 'same', 'wrap', 'digit', 'const')
 BOX3 = (5.0, 6.0, 7.0)
 BOX9 = (5.0, 6.0, 7.0, 0.0, 0.0, 1.5, 0.0, 0.5, 2.5)     # v1x v2y v3z v1y v1z v2x v2z v3x v3y
 
@@ -55,10 +55,15 @@ def build_text(fd, seed):
             rid = 1 if j == 0 else (rid if rn != prev_name else rid + 1)
         elif num == 'wrap':
             rid = (start + j) % 100000
+        elif num == 'const':          # one number everywhere: boundaries only where the name changes
+            rid = 4
         else:                         # digit-leading names: 1 + "2X" next to 12 + "X"
             rid, rn = (1, '2' + rn) if j % 2 == 0 else (12, rn)
+        if num == 'const' and sizes and KINDS[k][0] == prev_name:
+            sizes[-1] += len(anames)
+        else:
+            sizes.append(len(anames))
         prev_name = KINDS[k][0]
-        sizes.append(len(anames))
         for an in anames:
             at = (start + aid) % 100000 if num == 'wrap' else (aid + 1) % 100000
             p = (0.011 * (aid % 800 + 1) + 0.1 * seed, 1.0 + 0.007 * (aid % 1000), 2.0 + 0.013 * ((aid * aid + seed) % 17))
@@ -262,7 +267,8 @@ class C12(Check):
                  'fresh in-memory files, canonical cursor/iterator key), de Bruijn order-2 event words, tiling oracle '
                  'against an independent fixed-width reader of the raw text')
     level_text = ('every file over 4 residue kinds (equal names with different sizes, digit-leading names with colliding '
-                  'number+name concatenations, equal numbers on adjacent residues, wrapping numbers, with/without '
+                  'number+name concatenations, equal numbers on adjacent residues (of different and of equal names), wrapping '
+                  'numbers, with/without '
                   'velocities) up to 3 (quick) / 5 (thorough) residues, and three 400-residue layouts, is loaded by the '
                   'real code; every access history over a 19-event alphabet (index, negative index, slices, two live '
                   'iterators, len, list, out-of-range) up to depth 4 (quick) / 5 (thorough; 4 on 5-residue files) modulo the cursor key, and every ordered pair '
